@@ -12,6 +12,7 @@ const (
 	verifHsAfterAllocIndex
 	verifFwAfterInConnsMiss
 	verifCmBeforeSwapPrimary
+	verifHsBeforeContinueLock
 )
 
 func verifPoint(int) {}
